@@ -9,6 +9,16 @@ from ..kernel import Violation, Discard, SutError, arr_rng
 from .. import simlib, refs
 
 
+def make_section(mesher, p, idx):
+    """Cross-sections of the frame members: 0 = rectangle b x h, 1 = disc of diameter min(b, h), 2 = rectangle h x b."""
+    from EasyFEA.Geoms import Domain, Point, Circle
+
+    if idx == 1:
+        return mesher.Mesh_2D(Circle(Point(0, 0), min(p["b"], p["h"]), min(p["b"], p["h"]) / 6))
+    b, h = (p["b"], p["h"]) if idx == 0 else (p["h"], p["b"])
+    return mesher.Mesh_2D(Domain(Point(-0.5 * b, -0.5 * h), Point(0.5 * b, 0.5 * h)))
+
+
 def make_frame_sim(spec, with_alt=False):
     from EasyFEA import Mesher, Models, Simulations, ElemType
     from EasyFEA.Geoms import Domain, Point, Line
@@ -22,11 +32,16 @@ def make_frame_sim(spec, with_alt=False):
     p = spec["params"]
     dim = spec["dim"]
     mesher = Mesher()
-    section = mesher.Mesh_2D(Domain(Point(-0.5 * p["b"], -0.5 * p["h"]), Point(0.5 * p["b"], 0.5 * p["h"])))
+    secs = {}
+    for idx in spec.get("sec") or [0]:
+        if idx not in secs:
+            secs[idx] = make_section(mesher, p, idx)
     L = p["L"]
     pts = [(0, 0), (0, L), (L * 0.6, L * 1.1)] + ([(L * 0.9, L * 0.2)] if spec["three"] else [])
     lines = [Line(pts[0], pts[1], L / 3), Line(pts[1], pts[2], L / 3)] + ([Line(pts[1], pts[3], L / 3)] if spec["three"] else [])
-    beams = [Models.Beam.Isotropic(dim, ln, section, p["E"][k], p["v"][k]) for k, ln in enumerate(lines)]
+    sec = spec.get("sec") or [0] * len(lines)
+    yax = spec.get("yaxis") or [None] * len(lines)
+    beams = [Models.Beam.Isotropic(dim, ln, secs[sec[k]], p["E"][k], p["v"][k], **({"yAxis": tuple(yax[k])} if yax[k] else {})) for k, ln in enumerate(lines)]
     for k, b in enumerate(beams):
         if p["ky"][k] is not None:
             b._ky = p["ky"][k]
@@ -48,6 +63,8 @@ class BeamFresh:
         with ctx.sut():
             self.sim, self.beams, self.pts, self.alt = make_frame_sim(self.spec, with_alt=True)
         self.iter_elem = []  # element type of the mesh each saved iteration belongs to
+        self.spec["sec"] = [0] * len(self.beams)
+        self.spec["yaxis"] = [None] * len(self.beams)
         self.un = list(self.sim.Get_unknowns())
         self.bcs = []  # resolved ("D"/"N", pt, nodes, dofs, values, unknowns) or ("L", LagrangeCondition args)
         self.iters = 0
@@ -96,7 +113,7 @@ class BeamFresh:
         return any(bc[0] == "L" for bc in self.bcs)
 
     def gen_op(self, rng, frng):
-        w = {"beam_param": 4, "dirichlet": 3 if self._anchored() else 8, "neumann": 2.5, "connection": 3 if not self._connected() else 0.0, "bc_init": 0.3, "remesh": 0.8,
+        w = {"beam_param": 4, "dirichlet": 3 if self._anchored() else 8, "neumann": 2.5, "connection": 3 if not self._connected() else 0.0, "bc_init": 0.3, "remesh": 0.8, "section": 0.8, "yaxis": 1.0 if self.spec["dim"] == 3 else 0.0,
              # listed finding beam-usetimoshenko-written-after-construction: not generated while it is open
              "theory": 0.0 if self.ctx.avoids("beam-usetimoshenko-written-after-construction") else 0.6,
              "solve": 5 if (self._anchored() and self._connected()) else 0, "kcmf": 3, "result": 1.5 if self.solved else 0, "save_iter": 1, "set_iter": 0.7 if self.iters else 0}
@@ -124,6 +141,12 @@ class BeamFresh:
             op["elemType"] = ["SEG2", "SEG3"][int(rng.integers(2))]
         elif name == "theory":
             op["timoshenko"] = bool(rng.integers(2))
+        elif name == "section":
+            op.update(k=int(rng.integers(nb)), idx=int(rng.integers(3)))
+        elif name == "yaxis":
+            # orientation of the cross-section about the fibre (the members of the frame lie in the plane z = 0)
+            th = float(np.round(rng.uniform(0.2, 1.4), 3))
+            op.update(k=int(rng.integers(nb)), axis=[0.0, float(np.round(np.sin(th), 6)), float(np.round(np.cos(th), 6))] if rng.random() < 0.5 else [float(np.round(np.cos(th), 6)), float(np.round(np.sin(th), 6)), float(np.round(0.5 * np.cos(th), 6))])
         elif name == "result":
             op["name"] = ["displacement", "ux", "uy", "rz"][int(rng.integers(4))]
         elif name == "set_iter":
@@ -210,6 +233,30 @@ class BeamFresh:
             self.bcs = []
             self.d_points = set()
             self.hinged = False
+            return "ok"
+        if name == "yaxis":
+            if op["k"] >= len(self.beams) or self.spec["dim"] != 3:
+                return "skip"
+            with ctx.sut():
+                self.beams[op["k"]].yAxis = tuple(op["axis"])
+            self.spec["yaxis"] = list(self.spec["yaxis"])
+            self.spec["yaxis"][op["k"]] = list(op["axis"])
+            ctx.probe("beam_yaxis_written")
+            return "ok"
+        if name == "section":
+            # another cross-section for one member (what belongs to the section -- area, moments, shear correction
+            # factors -- must follow it)
+            if op["k"] >= len(self.beams):
+                return "skip"
+            from EasyFEA import Mesher
+
+            with ctx.sut():
+                self.beams[op["k"]].section = make_section(Mesher(), self.spec["params"], op["idx"])
+            self.spec["sec"] = list(self.spec["sec"])
+            self.spec["sec"][op["k"]] = op["idx"]
+            # a shear correction factor entered by hand belonged to the section that was replaced
+            self.spec["params"]["ky"][op["k"]] = None
+            ctx.probe("beam_section_replaced")
             return "ok"
         if name == "theory":
             # the public parameter of the simulation that selects the beam theory, written on the live object
